@@ -294,6 +294,8 @@ def run(run: Run):
                "the shared macros invoked between the stub lookup and the send (create_metadata, add_api_version_header, auto_populate_uuid4_fields) "
                "assign only `metadata`, `header_params` and request fields (their own contracts: C06, C18); _validate_universe_domain has no effect on the call")
     run.not_decided.append("that grpc frames the bytes correctly; that the coerced request equals the caller's (C05); LRO / pager wrapping of the reply (C08 / C07)")
+    run.native_standin("props.C03_native", "scenarios")
+
 
 
 def falsify(run, group, info):
